@@ -42,8 +42,12 @@ CHECKS = {
    technique="TLC model checking of TimeBuf.tla (exact integrals, additivity over partitions, average in range) + scripts replayed on real AvgOverTime/SumOverTime",
    text="Integrals of the linear/step interpolant are exact rationals; TLC checks additivity over arbitrary partitions, avg = integral/(p1-p0), average within contributing values, eviction transparency; scripts run on the real adapters (per-time and absolute sums, step positions, units of the result).",
    note="First pull and repeated pulls at the same time are not asserted (outside the statement). Same bounds as C11."),
+ "C13": dict(engine="check_delay", ref="6 C13",
+   technique="TLC model checking of Delay.tla (adapter semantics restated over ghost request histories) + scripts replayed on real delay adapter chains + Sched_Trace delay-shift clauses",
+   text="Chains of 1-3 DelayFixed/DelayToPull/DelayToPush/pass-through adapters under arbitrary non-decreasing request sequences: TLC checks that the operational model equals the statement's wording (n-th previous request, clamping, min with newest publication, fixed delays add up); generated scripts run on real chains and the time arriving at the source output and the served token are validated; whole-composition traces validate that the requested time is the one the scheduler model assumes.",
+   note="Bounded: delays 1-5, steps counts 1-3, <= 6 publications. The clamp max(t - delay, start time) is taken literally (a request before the producer's start is moved to the start)."),
 }
 
 NOT_APPLICABLE = {
- **{f"C{n:02d}": "check not built yet in this round (the TLA+ module for it is planned in DESIGN.md section 3)" for n in (6, 7, 8, 13, 14, 15, 16, 17, 18, 19, 20)},
+ **{f"C{n:02d}": "check not built yet in this round (the TLA+ module for it is planned in DESIGN.md section 3)" for n in (6, 7, 8, 14, 15, 16, 17, 18, 19, 20)},
 }
